@@ -186,6 +186,114 @@ theorem C01_error_vlen_mixed_dtype (c : VlenCodec) (pre : Path) (s : St) (name :
   simp only [hu, metaDtype, this, bind, Except.bind, Bool.false_eq_true, if_false]
   rfl
 
+/-- **C01 (error branch)**: a graph that is well-formed except that one variable-length node property has
+elements of different dtype or rank is refused by `write_arrays` with `ValueError` — whatever the
+properties listed after it are, and for every target, caller metadata and validator.  (`pre`: the
+properties before the offending one.) -/
+theorem C01_error_inhomogeneous_vlen (c : VlenCodec) (hc : c.Lawful) (hr : c.Rejects) (validate : St → Outcome Unit)
+    (s0 : St) (g : InMem) (md : CallerMeta) (pre post : Props) (name : String) (es : List NdArr) (m : Option NdArr)
+    (hfresh : Fresh s0) (hdt : g.nodeIds.dtype = g.edgeIds.dtype) (hint : g.nodeIds.dtype.isInteger = true)
+    (hlen : g.nodeIds.len?.isSome = true)
+    (hnps : nodePropsToWrite g md = some (pre ++ (name, ⟨.obj es, m⟩) :: post))
+    (hnd : (pre.map (·.1)).Nodup) (hw : ∀ kp ∈ pre, Writable kp.1 kp.2)
+    (hbad : ¬ Geff.Vlen.Homogeneous es) :
+    writeArrays c validate s0 g md = .error .valueError := by
+  open Gen.Paths in
+  -- the root group and the id arrays are written as in the good case
+  obtain ⟨a0, hroot1, hnogeff⟩ : ∃ a0, get (ensureGroup s0 []) [] = some (.group a0) ∧ ∀ kv ∈ a0, kv.1 ≠ "geff" := by
+    rcases hfresh.root with h | ⟨a, h, ha⟩
+    · exact ⟨[], by rw [get_ensureGroup_same, h]; rfl, fun _ h => by cases h⟩
+    · exact ⟨a, by rw [get_ensureGroup_same, h]; rfl, ha⟩
+  have hs1 : ∀ q, q ≠ [] → get (ensureGroup s0 []) q = get s0 q := fun q hq => get_ensureGroup_other _ _ _ hq
+  have hgeff : hasGeff (ensureGroup s0 []) = false := by
+    unfold hasGeff
+    rw [hroot1]
+    simp only [List.any_eq_false, decide_eq_true_eq]
+    exact hnogeff
+  let s1 := ensureGroup s0 []
+  let s2 := set (set (set (set s1 [NODES] (.group [])) [NODES, IDS] (.array g.nodeIds)) [EDGES] (.group []))
+    [EDGES, IDS] (.array g.edgeIds)
+  have hids : writeIdArrays (ensureGroup s0 []) g.nodeIds g.edgeIds = .ok s2 := by
+    unfold writeIdArrays
+    rw [if_neg (by simpa using hdt), hint]
+    simp only [Bool.not_true, Bool.false_eq_true, if_false, pure, Except.pure]
+    rw [ensureGroup_of_some _ [] _ hroot1]
+    unfold setArray
+    have h1 : get (ensureGroup s0 []) [NODES] = none := by rw [hs1 _ (by simp)]; exact hfresh.nodes []
+    rw [ensureGroup_of_none _ _ h1]
+    have h2 : get (set (set (ensureGroup s0 []) [NODES] (.group [])) ([NODES] ++ [IDS]) (.array g.nodeIds)) [EDGES] = none := by
+      rw [get_set_other _ _ _ _ (by decide), get_set_other _ _ _ _ (by decide), hs1 _ (by simp)]
+      exact hfresh.edges []
+    rw [ensureGroup_of_none _ _ h2]
+    rfl
+  have hget2 : ∀ q, get s2 q = if q = [EDGES, IDS] then some (.array g.edgeIds) else if q = [EDGES] then some (.group [])
+      else if q = [NODES, IDS] then some (.array g.nodeIds) else if q = [NODES] then some (.group []) else get s1 q := by
+    intro q
+    show get (set (set (set (set s1 [NODES] (.group [])) [NODES, IDS] (.array g.nodeIds)) [EDGES] (.group []))
+      [EDGES, IDS] (.array g.edgeIds)) q = _
+    simp only [get_set]
+  have hR2 : get s2 [] = some (.group a0) := by
+    rw [hget2]
+    simp only [(by decide : ([] : Path) ≠ [EDGES, IDS]), (by decide : ([] : Path) ≠ [EDGES]),
+      (by decide : ([] : Path) ≠ [NODES, IDS]), (by decide : ([] : Path) ≠ [NODES]), if_false]
+    exact hroot1
+  have hN2 : get s2 [NODES] = some (.group []) := by
+    rw [hget2]
+    simp only [(by decide : [NODES] ≠ [EDGES, IDS]), (by decide : [NODES] ≠ [EDGES]),
+      (by decide : [NODES] ≠ [NODES, IDS]), if_false, if_true]
+  have herr := writePropsArrays_error c hc hr NODES s2 pre post name es m hbad ⟨_, hR2⟩ ⟨_, hN2⟩
+    (by
+      intro suf
+      rw [hget2]
+      rw [if_neg (by simp [NODES_ne_EDGES]), if_neg (by simp [NODES_ne_EDGES]), if_neg (by simp [IDS_ne_PROPS.symm]),
+        if_neg (by simp)]
+      show get (ensureGroup s0 []) _ = none
+      rw [hs1 _ (by simp)]
+      exact hfresh.nodes _)
+    hnd hw
+  have hnone : g.nodeIds.len?.isNone = false := by
+    cases h : g.nodeIds.len? with
+    | none => rw [h] at hlen; cases hlen
+    | some n => rfl
+  unfold writeArrays writeCore
+  simp only [bind, Except.bind, hgeff, Bool.false_eq_true, if_false, hids, hnone]
+  unfold writeTail
+  simp only [hnps, writePropsOpt, herr, bind, Except.bind]
+
+/-- **unsquish** (`node_props_unsquish`, metadata without axes): when the pre-pass succeeds and turns the
+node properties `nps` into `nps'` (a 2-D property replaced by one 1-D property per column), writing `g`
+with the unsquish argument is exactly writing the graph with node properties `nps'` without it — so
+`C01_roundtrip` applies to it and the columns come back as separate properties. -/
+theorem C01_unsquish_reduces (c : VlenCodec) (s0 : St) (g : InMem) (md : CallerMeta) (nps nps' : Props)
+    (un : List (String × List String)) (hax : md.axes = none) (hnp : g.nodeProps = some nps)
+    (hun : unsquish nps un = .ok nps') :
+    writeCore c s0 g md ⟨some un, none⟩ = writeCore c s0 { g with nodeProps := some nps' } md {} := by
+  have h1 : nodePropsToWrite g md = some nps := by
+    unfold nodePropsToWrite
+    rw [hax, hnp]
+    have : addEmptyAxes none = fun (ps : Props) => ps := rfl
+    cases g.nodeIds.len? with
+    | none => rfl
+    | some k => cases k <;> simp [this]
+  have h2 : nodePropsToWrite { g with nodeProps := some nps' } md = some nps' := by
+    unfold nodePropsToWrite
+    rw [hax]
+    have : addEmptyAxes none = fun (ps : Props) => ps := rfl
+    simp only []
+    cases g.nodeIds.len? with
+    | none => rfl
+    | some k => cases k <;> simp [this]
+  unfold writeCore writeTail
+  simp only [h1, h2, writePropsOpt, writePropsArrays, propsAfterUnsquish, hun, bind, Except.bind, pure, Except.pure]
+
+/-- evaluation: `pos` (3×2) unsquished into `py`, `px` -/
+example : unsquish [("pos", ⟨.dense ⟨.i8, [3, 2], [.i 1, .i 2, .i 3, .i 4, .i 5, .i 6]⟩, none⟩)] [("pos", ["py", "px"])]
+    = .ok [("py", ⟨.dense ⟨.i8, [3], [.i 1, .i 3, .i 5]⟩, none⟩), ("px", ⟨.dense ⟨.i8, [3], [.i 2, .i 4, .i 6]⟩, none⟩)] := by
+  rfl
+
+/-- the codec the check runs satisfies both codec laws -/
+theorem C01_codec_laws : vlenCodec.Lawful ∧ vlenCodec.Rejects := ⟨vlenCodec_lawful, vlenCodec_rejects⟩
+
 /-! ## non-vacuity: concrete inputs meeting the hypotheses (evaluations, not the unbounded claim) -/
 
 section Examples
